@@ -176,6 +176,22 @@ pub fn cases(quick: bool) -> Vec<UniCase> {
             }
         }
     }
+    // ---- single-task systems (self-interference only), all nine analyses
+    for a in &arrs {
+        for c in 1..=4u64 {
+            for ana in ALL_ANA {
+                let lasts: Vec<u64> = if matches!(ana, Ana::FpLp | Ana::EdfLp) { (1..=c).collect() } else { vec![1] };
+                for last in lasts {
+                    for bb in [0u64, 2] {
+                        if bb > 0 && !(ana.is_fp() && ana != Ana::FpP) {
+                            continue;
+                        }
+                        v.push(UniCase { ana, tasks: vec![task(a, c, 5, last, 1)], tua: 0, blocking: bb, limit: BIG });
+                    }
+                }
+            }
+        }
+    }
     // ---- FP with three tasks on a thinner menu
     let thin: Vec<ArrSpec> = arrs
         .iter()
